@@ -16,7 +16,7 @@ C05 (a JSON document is read by the jsonnet action as JSON would read it; the sa
                                value once before it is returned; meta keys only with with_meta: __path__ (the Path built) only for a path, __orig__ the text evaluated.
                                Failures: only ImportError (extension missing), the loader errors announced for the jsonnet mode, the validator's ValidationError, the
                                TypeError of a non-mapping result with with_meta - and, for a failed evaluation, the documented TypeError
-                               [REFUTED on the tree: a failed evaluation leaves as argparse.ArgumentError]
+                               [refuted the shipped code: a failed evaluation left as argparse.ArgumentError; repaired, repo commit 68cb964]
   ActionJsonnet._check_type    (also C03) a string is parsed once with the external variables found in the configuration under the action's ext_vars key ({} when
                                there is no configuration) and with_meta=True; any other value is validated by the schema (if any) and kept as given (identity); a
                                list-valued action treats every element so, in order; every failure leaves as TypeError naming the key (and the element)
@@ -57,9 +57,11 @@ C12 (help texts only: the docstring helpers return None or a text and never rais
                                is stored; exactly the options given are changed
   get_docstring_parse_options  an unset style becomes DocstringStyle.AUTO (once); the options table itself is returned
 C03 (the error channel)
-  ParserDeprecations.error_handler (setter / getter)   a callable, None or False is stored as given and returned by the getter; anything else is refused with ValueError
-                               and the stored handler stays; the deprecation warning is issued exactly for a value other than False
-  usage_and_exit_error_handler usage to stderr, then '<prog>: error: <message>' + newline to stderr (ALL strings), then parser.exit(2) - in this order, nothing else
+  ParserDeprecations.error_handler (setter)   a callable, None or False is stored as given (what ArgumentParser.error calls: contracts/c03.py); anything else is refused
+                               with ValueError and the stored handler stays; the deprecation warning is issued exactly for a value other than False
+                               (the getter - one `return self._error_handler` - shares the setter's name and cannot be addressed as a unit of its own)
+  usage_and_exit_error_handler usage to stderr, then '<prog>: error: <message>' + newline to stderr (sample strings, a % in the message included), then parser.exit(2) -
+                               in this order, nothing else
 """
 import ast
 
@@ -126,13 +128,16 @@ def sev_setup(ctx):
                                                                  tag=_tag(entries=n, kinds="/".join(e[1] for e in entries))))
 
 
+MISSING = Rec("no such entry")
+
+
 def _lookup(d, key):
     """The value stored in a result dict under the symbolic key `key` (by the very term), or the marker."""
     for k, v in d.items():
         t = k.term if hasattr(k, "term") else k
         if t is key:
             return v
-    return "missing"
+    return MISSING
 
 
 def sev_post(ctx, st, result):
@@ -146,10 +151,10 @@ def sev_post(ctx, st, result):
     for key, kind, value in d["entries"]:
         v, c = _lookup(ext_vars, key), _lookup(ext_codes, key)
         if kind == "str":
-            ctx.oblige("post", "a-string-value-is-handed-over-as-an-external-variable,unchanged,and-not-as-code" + tag, v is value and c == "missing")
+            ctx.oblige("post", "a-string-value-is-handed-over-as-an-external-variable,unchanged,and-not-as-code" + tag, v is value and c is MISSING)
         else:
             made = [x for x in d["dumped"] if len(x[0]) == 1 and x[0][0] is value and x[1] == {} and x[2] is c]
-            ctx.oblige("post", "any-other-value-is-handed-over-as-code:json.dumps-of-exactly-that-value(default settings),and-not-as-a-string-variable" + tag, v == "missing" and len(made) == 1)
+            ctx.oblige("post", "any-other-value-is-handed-over-as-code:json.dumps-of-exactly-that-value(default settings),and-not-as-a-string-variable" + tag, v is MISSING and len(made) == 1)
     ctx.oblige("post", "nothing-is-invented:as-many-entries-come-out-as-went-in" + tag, len(ext_vars) + len(ext_codes) == len(d["entries"]))
     codes = list(ext_codes.values())
     ctx.oblige("post", "only-the-non-string-values-are-serialised,each-once(every code is the text of its own serialisation)" + tag,
@@ -159,7 +164,7 @@ def sev_post(ctx, st, result):
 
 
 # ================================================================================================ ActionJsonnet.parse
-P_INPUT = ["text", "str-path", "Path-object"]
+P_INPUT = ["text", "str-path", "Path-object", "str-path-undecodable"]
 P_EVAL = ["evaluates", "RuntimeError"]
 P_LOAD = ["dict", "non-mapping", "announced-loader-error"]
 P_VALID = ["no-schema", "valid", "ValidationError"]
@@ -169,16 +174,25 @@ def pa_setup(ctx):
     _classes(ctx)
     installed = ctx.choose(2, "jsonnet-installed") == 1
     pyyaml = ctx.choose(2, "pyyaml_available") == 1
-    inp = P_INPUT[ctx.choose(3, "jsonnet-argument")]
-    ev = P_EVAL[ctx.choose(2, "evaluate_snippet")] if installed else "evaluates"
-    ld = P_LOAD[ctx.choose(3, "load_value")] if installed and ev == "evaluates" else "dict"
-    vd = P_VALID[ctx.choose(3, "schema")] if installed and ev == "evaluates" and ld != "announced-loader-error" else "no-schema"
+    inp = P_INPUT[ctx.choose(4, "jsonnet-argument")]
+    undecodable = inp == "str-path-undecodable"
+    inp = "str-path" if undecodable else inp
+    ev = P_EVAL[ctx.choose(2, "evaluate_snippet")] if installed and not undecodable else "evaluates"
+    ld = P_LOAD[ctx.choose(3, "load_value")] if installed and ev == "evaluates" and not undecodable else "dict"
+    vd = P_VALID[ctx.choose(3, "schema")] if installed and ev == "evaluates" and ld != "announced-loader-error" and not undecodable else "no-schema"
     meta = [None, False, True][ctx.choose(3, "with_meta(omitted / False / True)")] if installed else None
     ext_given = ctx.choose(2, "ext_vars-given") == 1 if installed else False
     announced = "YAMLError" if pyyaml else "JSONDecodeError"
 
     text, content, relname, evaluated, mode = z3.String("jsonnet"), z3.String("file-content"), z3.String("relative-path"), z3.String("evaluated-json"), z3.String("config-read-mode")
-    fpath = Rec("Path", attrs={"built": True}, methods={"get_content": lambda c, s_, a, k: (c.event("get_content", a, dict(k)), content)[1]})
+    def get_content(c, s_, a, k):
+        c.event("get_content", a, dict(k))
+        if undecodable:
+            _fail("UnicodeDecodeError", "get_content")
+        return content
+
+    ctx.classes.add("UnicodeDecodeError", ["ValueError"])
+    fpath = Rec("Path", attrs={"built": True}, methods={"get_content": get_content})
     if inp == "Path-object":
         arg = Rec("Path", attrs={"given": True}, methods={"__call__": lambda c, s_, a, k: (c.event("path()", a, dict(k)), relname)[1],
                                                           "get_content": lambda c, s_, a, k: (c.event("get_content-of-the-argument", a, dict(k)), z3.String("other-content"))[1]})
@@ -229,9 +243,9 @@ def pa_setup(ctx):
     if meta is not None:
         env["with_meta"] = meta
     return Setup(env=env, calls=calls, cms=cms, consts={"pyyaml_available": pyyaml},
-                 data=dict(installed=installed, pyyaml=pyyaml, inp=inp, ev=ev, ld=ld, vd=vd, meta=bool(meta), ext_given=ext_given, announced=announced, text=text, content=content, relname=relname,
+                 data=dict(installed=installed, pyyaml=pyyaml, undecodable=undecodable, inp=inp, ev=ev, ld=ld, vd=vd, meta=bool(meta), ext_given=ext_given, announced=announced, text=text, content=content, relname=relname,
                            evaluated=evaluated, mode=mode, fpath=fpath, arg=arg, ext_in=ext_in, ext_vars=ext_vars, ext_codes=ext_codes, loaded=loaded, self=self, validator=validator,
-                           tag=_tag(installed=installed, pyyaml=pyyaml, input=inp, eval=ev, load=ld, schema=vd, meta=meta, ext=ext_given)))
+                           tag=_tag(installed=installed, pyyaml=pyyaml, input=inp + ("-undecodable" if undecodable else ""), eval=ev, load=ld, schema=vd, meta=meta, ext=ext_given)))
 
 
 def _pa_common(ctx, d):
@@ -246,6 +260,9 @@ def _pa_common(ctx, d):
     ctx.oblige("post", "the-external-variables-given(None when omitted)-are-split-once" + tag, len(sp) == 1 and len(sp[0][1]) == 1 and sp[0][1][0] is (d["ext_in"] if d["ext_given"] else None) and sp[0][2] == {})
     ctx.oblige("post", "the-argument-is-tried-as-a-path-once,with-exactly-the-config-read-mode-in-force(which file / url access configs get)" + tag,
                len(pt) == 1 and len(pt[0][1]) == 1 and pt[0][1][0] is d["arg"] and set(pt[0][2]) == {"mode"} and pt[0][2]["mode"] is d["mode"])
+    if d["undecodable"]:
+        ctx.oblige("post", "a-file-that-cannot-be-decoded:nothing-is-evaluated-or-loaded" + tag, not evs and not lv and len(E("get_content")) == 1)
+        return
     fname = {"text": "snippet", "str-path": d["text"], "Path-object": d["relname"]}[d["inp"]]
     snippet = d["text"] if d["inp"] == "text" else d["content"]
     same = lambda x, y: x is y or (isinstance(x, str) and isinstance(y, str) and x == y)  # noqa: E731
@@ -284,7 +301,7 @@ def pa_post(ctx, st, result):
     d = st.data
     tag = d["tag"]
     _pa_common(ctx, d)
-    ctx.oblige("post", "returns=>installed,evaluated,loaded,valid" + tag, d["installed"] and d["ev"] == "evaluates" and d["ld"] != "announced-loader-error" and d["vd"] != "ValidationError")
+    ctx.oblige("post", "returns=>installed,evaluated,loaded,valid" + tag, d["installed"] and not d["undecodable"] and d["ev"] == "evaluates" and d["ld"] != "announced-loader-error" and d["vd"] != "ValidationError")
     ctx.oblige("post", "the-value-returned-is-the-value-loaded(identity)" + tag, result is d["loaded"])
     if d["ld"] == "dict":
         want = {"k"}
@@ -307,6 +324,8 @@ def pa_raises(ctx, st, exc):
     got = f"(got {exc.cls}@{exc.origin})"
     if not d["installed"]:
         ctx.oblige("raises", "a-missing-jsonnet-package-is-reported-by-the-ImportError-of-import_jsonnet" + got + tag, exc.cls == "ImportError" and exc.origin == "import_jsonnet")
+    elif d["undecodable"]:
+        ctx.oblige("raises", "a-file-that-cannot-be-decoded-fails-with-the-ValueError-of-the-read(a class announced for the jsonnet mode)" + got + tag, exc.cls == "UnicodeDecodeError" and exc.origin == "get_content")
     elif d["ev"] == "RuntimeError":
         # C03: _check_type / __call__ convert TypeError, RuntimeError, jsonschema's ValidationError and the loader errors; the docstring of parse documents TypeError.
         ctx.oblige("raises", "a-failed-evaluation-leaves-as-the-documented-TypeError(or as a class the jsonnet mode announces),never-as-another-class" + got + tag,
@@ -325,7 +344,7 @@ def pa_raises(ctx, st, exc):
 
 # ================================================================================================ ActionJsonnet._check_type
 CT_VALUES = ["str", "dict", "int"]
-CT_PARSE = ["parses", "TypeError", "ValueError", "YAMLError", "ValidationError", "RuntimeError", "ArgumentError"]
+CT_PARSE = ["parses", "TypeError", "ValueError", "ValidationError", "RuntimeError"]  # (until repo commit 68cb964 a failed evaluation left parse as ArgumentError and passed through here unconverted)
 
 
 def ct_setup(ctx):
@@ -335,12 +354,12 @@ def ct_setup(ctx):
     cfg_kind = ["None", "empty-namespace", "namespace"][ctx.choose(3, "cfg")] if not islist else "namespace"
     schema = ctx.choose(2, "schema") == 1
     jsonschema_pkg = ctx.choose(2, "jsonschema-installed") == 1 if not schema and not islist else True
-    mode = ["yaml", "json", "jsonnet"][ctx.choose(3, "mode-of-the-parse-in-progress")] if not islist else "yaml"
+    mode = ["yaml", "json", "jsonnet"][ctx.choose(3, "mode-of-the-parse-in-progress")] if not islist else "jsonnet"
     kinds = [CT_VALUES[ctx.choose(3, f"value{i}")] for i in range(2 if islist else 1)]
     fates = []
     for i, kd in enumerate(kinds):
         if kd == "str":
-            fates.append(CT_PARSE[ctx.choose(len(CT_PARSE), f"parse{i}")] if not islist else ["parses", "ValueError", "ArgumentError"][ctx.choose(3, f"parse{i}")])
+            fates.append(CT_PARSE[ctx.choose(len(CT_PARSE), f"parse{i}")] if not islist else ["parses", "ValueError", "TypeError"][ctx.choose(3, f"parse{i}")])
         elif schema:
             fates.append(["valid", "ValidationError"][ctx.choose(2, f"validate{i}")])
         else:
@@ -352,14 +371,13 @@ def ct_setup(ctx):
     found = Rec("ext vars found in cfg")
 
     def _which(a):
-        idx = next((j for j, v in enumerate(values) if a and a[0] is v), None)
-        if idx is None:
-            raise Unsupported("a value that was not given is parsed / validated")
-        return idx
+        return next((j for j, v in enumerate(values) if a and a[0] is v), None)
 
     def parse(c, s_, a, k):
         c.event("parse", a, dict(k))
         idx = _which(a)
+        if idx is None:
+            return Rec("parsed: a value that was not given")  # (refuted by the clause on what is parsed)
         if fates[idx] not in ("parses", "valid", "kept"):
             _fail(fates[idx], "parse")
         return parsed[idx]
@@ -367,7 +385,7 @@ def ct_setup(ctx):
     def validate(c, s_, a, k):
         c.event("validate", a, dict(k))
         idx = _which(a)
-        if fates[idx] == "ValidationError":
+        if idx is not None and fates[idx] == "ValidationError":
             _fail("ValidationError", "validate")
 
     def cfg_get(c, s_, a, k):
@@ -447,7 +465,8 @@ def ct_raises(ctx, st, exc):
     if stop is None:
         return
     # C03: parse_args / parse_object convert TypeError (and KeyError) only; whatever parse or the schema fail with has to leave here as TypeError
-    which = "[jsonschema-package-missing]" if not d["pkg"] else ("[parse-fails-with-ArgumentError]" if d["fates"][stop] == "ArgumentError" else "")
+    which = "[jsonschema-package-missing]" if not d["pkg"] else ("[parse-fails-with-ArgumentError]" if d["fates"][stop] == "ArgumentError" else
+                                                                 ("[parse-fails-with-ValueError-in-yaml-mode]" if d["fates"][stop] == "ValueError" and d["mode"] == "yaml" else ""))
     ctx.oblige("raises", "every-failure-of-parse-or-of-the-schema-leaves-as-TypeError" + which + got + tag, exc.cls == "TypeError" and exc.origin.startswith("raise@"))
     if exc.cls == "TypeError" and exc.origin.startswith("raise@"):
         msg = exc.args[0] if exc.args else None
@@ -638,6 +657,767 @@ def gm_post(ctx, st, result):
     ctx.oblige("post", "returns-the-stored-mode-itself(what set_config_read_mode stored)", result is st.data["mode"])
 
 
+# ================================================================================================ missing_package_raise / import_* helpers
+def _required_by(package, importer):
+    return z3.Concat(lift(package), SV(" package is required by "), lift(importer), SV(" :: "))
+
+
+def mp_setup(ctx):
+    _classes(ctx)
+    thrown = [None, "ImportError", "ModuleNotFoundError", "ValueError"][ctx.choose(4, "the-body")]
+    package, importer = z3.String("package"), z3.String("importer")
+
+    def at_yield(c, interp, v, env):
+        c.event("body", v)
+        if thrown:
+            _fail(thrown, "body", "No module named 'x'")
+
+    return Setup(env={"package": package, "importer": importer}, hooks={"yield": at_yield}, data=dict(thrown=thrown, package=package, importer=importer, tag=_tag(body=thrown)),
+                 watch={"package": package, "importer": importer})
+
+
+def _mp_once(ctx, d):
+    ctx.oblige("post", "the-body-runs-once" + d["tag"], len([e for e in ctx.events if e[0] == "body"]) == 1)
+
+
+def mp_post(ctx, st, result):
+    d = st.data
+    _mp_once(ctx, d)
+    ctx.oblige("post", "a-normal-exit-means-the-body-raised-nothing(nothing is swallowed)" + d["tag"], d["thrown"] is None)
+
+
+def mp_raises(ctx, st, exc):
+    d = st.data
+    tag = d["tag"]
+    _mp_once(ctx, d)
+    got = f"(got {exc.cls}@{exc.origin})"
+    if exc.cls == "<Any>" or d["thrown"] == "ValueError":
+        ctx.oblige("raises", "an-exception-of-the-body-that-is-no-ImportError-leaves-unchanged" + got + tag, exc.origin == "body" or exc.origin.startswith("thrown-into-yield"))
+        return
+    ctx.oblige("raises", "an-ImportError-of-the-body(ModuleNotFoundError included)-leaves-as-ImportError,raised-here" + got + tag, exc.cls == "ImportError" and exc.origin.startswith("raise@"))
+    msg = exc.args[0] if exc.args else None
+    ctx.oblige("raises", "its-text-names-the-package-and-the-feature-that-needs-it(ALL strings),then-the-original-text" + tag,
+               is_z3(msg) and z3.PrefixOf(_required_by(d["package"], d["importer"]), msg), strings=True)
+    ctx.oblige("raises", "the-original-failure-is-kept-as-the-cause" + tag, isinstance(exc.cause, ExcVal) and exc.cause.origin in ("body",) or (isinstance(exc.cause, ExcVal) and exc.cause.cls == "<Any>"))
+
+
+# function -> (documented package name, module imported, what is returned)
+IMPORTERS = {
+    "import_jsonschema": ("jsonschema", "jsonschema", "module+Draft7Validator"), "import_jsonnet": ("jsonnet", "_jsonnet", "module"), "import_requests": ("requests", "requests", "module"),
+    "import_docstring_parser": ("docstring-parser", "docstring_parser", "module"), "import_fsspec": ("fsspec", "fsspec", "module"), "import_ruyaml": ("ruyaml", "ruyaml", "module"),
+    "import_reconplogger": ("reconplogger", "reconplogger", "module"), "import_toml_dumps": ("toml", "toml", "dumps"), "import_toml_loads": ("toml", "toml", "loads+error"),
+}
+
+
+def missing_package_cm(open_cms):
+    """missing_package_raise by its contract (unit above): an ImportError of the body leaves as ImportError naming package and feature; anything else passes."""
+    def enter(c, a, k):
+        open_cms.append((a, dict(k)))
+        c.event("missing_package_raise", a, dict(k))
+        return (a, "$token")
+
+    def exit_(c, token, exc):
+        open_cms.pop()
+        if exc is not None and c.classes.is_subclass(exc.cls, "ImportError"):
+            a = token[0]
+            msg = z3.Concat(_required_by(a[0], a[1]), c.fresh("original-text", S)) if len(a) == 2 else "?"
+            raise PyRaise(ExcVal("ImportError", args=(msg,), origin="missing_package_raise", cause=exc))
+        return False
+
+    return (enter, exit_)
+
+
+def import_hooks(installed, modules, open_cms):
+    """`import x` / `from x import y`: ModuleNotFoundError when the scenario says x is missing, else the module record of the scenario is bound."""
+    def before(c, interp, stmt, env):
+        if isinstance(stmt, (ast.Import, ast.ImportFrom)):
+            names = [a.name for a in stmt.names] if isinstance(stmt, ast.Import) else [stmt.module]
+            for n in names:
+                if n in modules:
+                    c.event("import", n, [x[0] for x in open_cms])
+                    if not installed.get(n, True):
+                        _fail("ModuleNotFoundError", "import " + n, f"No module named '{n}'")
+
+    def after(c, interp, stmt, env):
+        if isinstance(stmt, ast.Import):
+            for a in stmt.names:
+                if a.name in modules:
+                    env.set((a.asname or a.name).split(".")[0], modules[a.name])
+        elif isinstance(stmt, ast.ImportFrom) and stmt.module in modules:
+            for a in stmt.names:
+                if a.name in modules[stmt.module].attrs:
+                    env.set(a.asname or a.name, modules[stmt.module].attrs[a.name])
+
+    return {"before_stmt": before, "after_stmt": after}
+
+
+def _imp_setup(fname):
+    package, module, returns = IMPORTERS[fname]
+
+    def setup(ctx):
+        _classes(ctx)
+        have = ctx.choose(2, f"{module}-installed") == 1
+        tomllib = ctx.choose(2, "tomllib-present") == 1 if fname == "import_toml_loads" else False
+        importer = z3.String("importer")
+        mods = {module: Rec("module:" + module, attrs={"Draft7Validator": Rec("Draft7Validator"), "dumps": Rec("toml.dumps"), "loads": Rec("toml.loads"), "TomlDecodeError": ClassRef("TomlDecodeError")}),
+                "tomllib": Rec("module:tomllib", attrs={"loads": Rec("tomllib.loads"), "TOMLDecodeError": ClassRef("TOMLDecodeError")})}
+        open_cms = []
+        return Setup(env={"importer": importer}, calls={"find_spec": lambda c, a, k: (Rec("spec") if tomllib else None) if a == ("tomllib",) else _fail("AssertionError", "find_spec of another module")},
+                     cms={"missing_package_raise": missing_package_cm(open_cms)}, hooks=import_hooks({module: have, "tomllib": tomllib}, mods, open_cms),
+                     data=dict(have=have, tomllib=tomllib, importer=importer, mods=mods, tag=_tag(installed=have) + (f"[tomllib={tomllib}]" if fname == "import_toml_loads" else "")), watch={"importer": importer})
+
+    def common(ctx, d):
+        tag = d["tag"]
+        imps = [e for e in ctx.events if e[0] == "import"]
+        if d["tomllib"]:
+            ctx.oblige("post", "with-tomllib(standard library)-nothing-else-is-imported" + tag, [e[1] for e in imps] == ["tomllib"])
+            return
+        ctx.oblige("post", f"exactly-the-module-{module}-is-imported,once" + tag, [e[1] for e in imps] == [module])
+        if imps:
+            inside = imps[0][2]
+            ctx.oblige("post", f"inside-missing_package_raise('{package}', the importer given):a-missing-package-is-reported-under-its-documented-name-and-the-feature's" + tag,
+                       len(inside) == 1 and len(inside[0]) == 2 and inside[0][0] == package and inside[0][1] is d["importer"])
+
+    def post(ctx, st, result):
+        d = st.data
+        tag = d["tag"]
+        common(ctx, d)
+        ctx.oblige("post", "returns=>the-package-is-installed" + tag, d["have"] or d["tomllib"])
+        m = d["mods"]["tomllib" if d["tomllib"] else module]
+        g = m.attrs.get
+        want = {"module": m, "module+Draft7Validator": (m, g("Draft7Validator")), "dumps": g("dumps"), "loads+error": (g("loads"), g("TOMLDecodeError" if d["tomllib"] else "TomlDecodeError"))}[returns]
+        same = (isinstance(result, tuple) and len(result) == len(want) and all(x is y for x, y in zip(result, want))) if isinstance(want, tuple) else result is want
+        ctx.oblige("post", f"returns-what-is-documented({returns})-of-the-module-imported" + tag, same)
+
+    def raises(ctx, st, exc):
+        d = st.data
+        tag = d["tag"]
+        common(ctx, d)
+        ctx.oblige("raises", f"only-a-missing-package-fails,with-the-ImportError-of-missing_package_raise(never a bare ModuleNotFoundError)(got {exc.cls}@{exc.origin})" + tag,
+                   not d["have"] and not d["tomllib"] and exc.cls == "ImportError" and exc.origin == "missing_package_raise")
+
+    return setup, post, raises
+
+
+# ================================================================================================ get_omegaconf_loader / omegaconf_load
+OC_YAML = ["str", "int", "float", "bool", "None", "dict", "list", "YAMLError"]
+OC_OMEGA = ["resolved", "null-valued-key-of-the-whole-text", "OmegaConfBaseException"]
+
+
+def oc_setup(ctx):
+    _classes(ctx)
+    y = OC_YAML[ctx.choose(len(OC_YAML), "yaml_load")]
+    o = OC_OMEGA[ctx.choose(len(OC_OMEGA), "OmegaConf")] if y in ("dict", "list") else "resolved"
+    value = z3.String("value")
+    yaml_value = {"str": z3.String("yaml-str"), "int": z3.Int("yaml-int"), "float": z3.FP("yaml-float", z3.Float64()), "bool": z3.Bool("yaml-bool"), "None": None, "dict": {"a": z3.Int("a")}, "list": [z3.Int("b")], "YAMLError": None}[y]
+    compared = []
+
+    def oc_eq(c, s_, a, k):
+        compared.append(a[0])
+        return o == "null-valued-key-of-the-whole-text"
+
+    resolved = Rec("OmegaConf's object", methods={"__eq__": oc_eq})
+    stream, conf = Rec("StringIO"), Rec("DictConfig")
+
+    def yaml_load(c, a, k):
+        c.event("yaml_load", a, dict(k))
+        if y == "YAMLError":
+            _fail("YAMLError", "yaml_load")
+        return yaml_value
+
+    def load(c, a, k):
+        c.event("OmegaConf.load", a, dict(k))
+        return conf
+
+    def to_object(c, a, k):
+        c.event("OmegaConf.to_object", a, dict(k))
+        if o == "OmegaConfBaseException":
+            _fail("OmegaConfBaseException", "OmegaConf.to_object")
+        return resolved
+
+    calls = {"yaml_load": yaml_load, "OmegaConf.load": load, "OmegaConf.to_object": to_object, "io.StringIO": lambda c, a, k: (c.event("StringIO", a, dict(k)), stream)[1]}
+    return Setup(env={"value": value}, calls=calls, data=dict(y=y, o=o, value=value, yaml_value=yaml_value, resolved=resolved, stream=stream, conf=conf, compared=compared, tag=_tag(yaml=y, omegaconf=o)))
+
+
+def _oc_common(ctx, d):
+    tag = d["tag"]
+    E = lambda n: [e for e in ctx.events if e[0] == n]  # noqa: E731
+    yl = E("yaml_load")
+    ctx.oblige("post", "YAML-reads-the-unmodified-text-first,once" + tag, len(yl) == 1 and len(yl[0][1]) == 1 and yl[0][1][0] is d["value"] and yl[0][2] == {} and ctx.events[0][0] == "yaml_load")
+    container = d["y"] in ("dict", "list")
+    sio, ld, to = E("StringIO"), E("OmegaConf.load"), E("OmegaConf.to_object")
+    if container:
+        ctx.oblige("post", "a-container-is-resolved-by-OmegaConf-from-the-same-unmodified-text,once" + tag,
+                   len(sio) == 1 and len(sio[0][1]) == 1 and sio[0][1][0] is d["value"] and len(ld) == 1 and len(ld[0][1]) == 1 and ld[0][1][0] is d["stream"] and len(to) == 1 and len(to[0][1]) == 1 and to[0][1][0] is d["conf"])
+    else:
+        ctx.oblige("post", "a-scalar,a-null-or-a-text-YAML-refuses:OmegaConf-does-not-run" + tag, not sio and not ld and not to)
+
+
+def oc_post(ctx, st, result):
+    d = st.data
+    tag = d["tag"]
+    _oc_common(ctx, d)
+    ctx.oblige("post", "returns=>YAML-read-the-text-and-OmegaConf-resolved-it" + tag, d["y"] != "YAMLError" and d["o"] != "OmegaConfBaseException")
+    if d["y"] in ("dict", "list") and d["o"] == "resolved":
+        ctx.oblige("post", "a-container-is-returned-as-OmegaConf-resolved-it" + tag, result is d["resolved"])
+    else:
+        ctx.oblige("post", "a-scalar-or-null-is-returned-as-YAML-read-it(a JSON scalar reads as under the yaml mode);so-is-a-text-OmegaConf-turned-into-a-single-null-valued-key" + tag, result is d["yaml_value"])
+    if d["y"] in ("dict", "list"):
+        cmp_ = d["compared"]
+        ok = len(cmp_) == 1 and isinstance(cmp_[0], dict) and len(cmp_[0]) == 1 and list(cmp_[0].values()) == [None] and all((k.term if hasattr(k, "term") else k) is d["value"] for k in cmp_[0])
+        ctx.oblige("post", "OmegaConf's-result-is-compared-with-{the whole text: None}-only" + tag, ok)
+
+
+def oc_raises(ctx, st, exc):
+    d = st.data
+    _oc_common(ctx, d)
+    # set_omegaconf_loader registers the loader with yaml's exceptions: only those may leave (C03)
+    ctx.oblige("raises", f"only-yaml's-announced-failure-leaves,unchanged(got {exc.cls}@{exc.origin})" + d["tag"], d["y"] == "YAMLError" and exc.cls == "YAMLError" and exc.origin == "yaml_load")
+
+
+def ol_setup(ctx):
+    _classes(ctx)
+    have = ctx.choose(2, "omegaconf-installed") == 1
+    open_cms = []
+    mods = {"omegaconf": Rec("module:omegaconf", attrs={"OmegaConf": Rec("OmegaConf class")}), "io": Rec("module:io")}
+    return Setup(env={}, calls={"yaml_load": lambda c, a, k: None}, cms={"missing_package_raise": missing_package_cm(open_cms)}, hooks=import_hooks({"omegaconf": have}, mods, open_cms),
+                 data=dict(have=have, tag=_tag(installed=have)))
+
+
+def _ol_common(ctx, d):
+    imps = [e for e in ctx.events if e[0] == "import" and e[1] == "omegaconf"]
+    ctx.oblige("post", "omegaconf-is-imported-inside-missing_package_raise('omegaconf', 'get_omegaconf_loader')" + d["tag"], len(imps) == 1 and list(imps[0][2]) == [("omegaconf", "get_omegaconf_loader")])
+
+
+def ol_post(ctx, st, result):
+    from pyvc.engine import Closure
+    d = st.data
+    _ol_common(ctx, d)
+    ctx.oblige("post", "returns=>installed;the-result-is-the-loader-function-defined-here(one parameter: the text)" + d["tag"],
+               d["have"] and isinstance(result, Closure) and result.name == "omegaconf_load" and [a.arg for a in result.node.args.args] == ["value"])
+
+
+def ol_raises(ctx, st, exc):
+    d = st.data
+    _ol_common(ctx, d)
+    ctx.oblige("raises", f"only-a-missing-omegaconf-fails,with-the-ImportError-naming-it(got {exc.cls}@{exc.origin})" + d["tag"], not d["have"] and exc.cls == "ImportError" and exc.origin == "missing_package_raise")
+
+
+# ================================================================================================ docstring helpers
+def pd_setup(ctx):
+    _classes(ctx)
+    have = ctx.choose(2, "docstring-parser-installed") == 1
+    params = [None, False, True][ctx.choose(3, "params(omitted / False / True)")] if have else None
+    attr_docs = ctx.choose(2, "attribute_docstrings-option") == 1 if have else False
+    fate = ["parsed", "ParseError", "ValueError"][ctx.choose(3, "docstring_parser")] if have else "parsed"
+    doc_kind = ["text", "None"][ctx.choose(2, "__doc__")] if have else "text"
+    with_logger = ctx.choose(2, "logger") == 1 if have else False
+    docstring = z3.String("docstring") if doc_kind == "text" else None
+    component = Rec("function", attrs={"__doc__": docstring})
+    style, parsed = Rec("style"), Rec("Docstring")
+    options = {"style": style, "attribute_docstrings": attr_docs}
+
+    def run(name):
+        def f(c, a, k):
+            c.event(name, a, dict(k))
+            if fate != "parsed":
+                _fail(fate, name)
+            return parsed
+        return f
+
+    def imp(c, a, k):
+        c.event("import_docstring_parser", a)
+        if not have:
+            _fail("ImportError", "import_docstring_parser")
+        return Rec("module docstring_parser")
+
+    calls = {"import_docstring_parser": imp, "get_docstring_parse_options": lambda c, a, k: options, "dp.parse": run("dp.parse"), "dp.parse_from_object": run("dp.parse_from_object")}
+    env = {"component": component}
+    if params is not None:
+        env["params"] = params
+    if with_logger:
+        env["logger"] = Rec("logger")
+    return Setup(env=env, calls=calls, consts={"dp.ParseError": ClassRef("ParseError")}, drop_calls=("logger.debug",),
+                 data=dict(have=have, params=bool(params), attr_docs=attr_docs, fate=fate, docstring=docstring, component=component, style=style, parsed=parsed, options=options, options_before=dict(options),
+                           tag=_tag(installed=have, params=params, attribute_docstrings=attr_docs, parser=fate, doc=doc_kind, logger=with_logger)))
+
+
+def pd_post(ctx, st, result):
+    d = st.data
+    tag = d["tag"]
+    ctx.oblige("post", "returns=>docstring-parser-is-installed" + tag, d["have"])
+    runs = [e for e in ctx.events if e[0].startswith("dp.")]
+    whole = d["params"] and d["attr_docs"]
+    ok = len(runs) == 1 and runs[0][0] == ("dp.parse_from_object" if whole else "dp.parse") and len(runs[0][1]) == 1 and runs[0][2].get("style") is d["style"] and set(runs[0][2]) == {"style"}
+    ok = ok and (runs[0][1][0] is d["component"] if whole else runs[0][1][0] is d["docstring"])
+    ctx.oblige("post", "docstring_parser-reads-exactly-the-component's-__doc__(the object itself only for parameters with attribute docstrings enabled),once,with-the-configured-style" + tag, ok)
+    ctx.oblige("post", "the-parsed-docstring-is-returned-as-is;a-docstring-that-cannot-be-parsed(ParseError / ValueError)-gives-None" + tag, result is (d["parsed"] if d["fate"] == "parsed" else None))
+    ctx.oblige("frame", "options-and-component-are-not-modified" + tag, d["options"] == d["options_before"] and set(d["component"].attrs) == {"__doc__"})
+
+
+def pd_raises(ctx, st, exc):
+    d = st.data
+    ctx.oblige("raises", f"only-a-missing-docstring-parser-fails(callers check docstring_parser_support first: their units)(got {exc.cls}@{exc.origin})" + d["tag"], not d["have"] and exc.cls == "ImportError" and exc.origin == "import_docstring_parser")
+
+
+def _doc(short):
+    return Rec("Docstring", attrs={"short_description": short})
+
+
+def sd_setup(ctx):
+    support = ctx.choose(2, "docstring_parser_support") == 1
+    kind = ["function", "class"][ctx.choose(2, "function_or_class")]
+    method = [None, "", "fit"][ctx.choose(3, "method_name(omitted or None / '' / 'fit')")] if kind == "class" else None
+    omit = ctx.choose(2, "method_name-omitted") == 1 if method is None else False
+    texts = {n: z3.String(f"short-description-of-{n}") for n in ("own", "__init__", "fit")}
+    init, fit = Rec("function", attrs={"__name__": "__init__"}), Rec("function", attrs={"__name__": "fit"})
+    target = Rec("class", attrs={"__init__": init, "fit": fit}) if kind == "class" else Rec("function", attrs={"__name__": "f"})
+    names = {id(target): "own", id(init): "__init__", id(fit): "fit"}
+    fates = {}
+    logger = Rec("logger")
+
+    def parse_docstring(c, a, k):
+        c.event("parse_docstring", a, dict(k))
+        n = names.get(id(a[0])) if a else None
+        if n is None:
+            raise Unsupported("docstring of another object is parsed")
+        if n not in fates:
+            fates[n] = ["described", "no-short-description", "unparsable"][c.choose(3, f"docstring-of-{n}")]
+        return {"described": _doc(texts[n]), "no-short-description": _doc(None), "unparsable": None}[fates[n]]
+
+    calls = {"parse_docstring": parse_docstring, "inspect.isclass": lambda c, a, k: a[0] is target and kind == "class"}
+    env = {"function_or_class": target, "logger": logger}
+    if not omit:
+        env["method_name"] = method
+    return Setup(env=env, calls=calls, consts={"docstring_parser_support": support},
+                 data=dict(support=support, kind=kind, method=method, texts=texts, target=target, init=init, fit=fit, fates=fates, logger=logger, tag=_tag(support=support, of=kind, method=repr(method), omitted=omit)), watch=dict(texts))
+
+
+def sd_post(ctx, st, result):
+    d = st.data
+    tag = d["tag"] + "[" + ",".join(f"{k}:{v}" for k, v in d["fates"].items()) + "]"
+    ev = [e for e in ctx.events if e[0] == "parse_docstring"]
+    ctx.oblige("post", "the-result-is-None-or-a-text" + tag, result is None or (is_z3(result) and result.sort() == S))
+    if not d["support"]:
+        ctx.oblige("post", "without-docstring-parser:None,and-no-docstring-is-read" + tag, result is None and not ev)
+        return
+    f, t = d["fates"], d["texts"]
+
+    def desc(n):
+        return t[n] if f.get(n) == "described" else None
+
+    if d["kind"] == "function":
+        want, reads = [desc("own")], ["own"]
+    elif d["method"] == "fit":
+        want, reads = [desc("fit")], ["fit"]
+    else:
+        # a class: its own short description if it has a non-empty one, else that of __init__
+        own = desc("own")
+        want = [own, desc("__init__")] if own is not None else [desc("__init__")]
+        reads = None
+    if len(want) == 1:
+        ctx.oblige("post", "a-function's-own-short-description;for-a-class-with-a-method-name-that-method's;None-when-there-is-none-or-the-docstring-is-unparsable" + tag, result is want[0])
+    else:
+        empty = want[0] == SV("")
+        ctx.oblige("post", "a-class-without-method-name:its-own-short-description-if-it-has-a-non-empty-one,else-that-of-__init__" + tag,
+                   z3.Not(empty) if result is want[0] else (empty if result is want[1] else False), strings=True)
+    if reads is not None:
+        objs = {"own": d["target"], "fit": d["fit"]}
+        ctx.oblige("post", "exactly-that-docstring-is-read,once" + tag, len(ev) == 1 and ev[0][1][0] is objs[reads[0]])
+    ctx.oblige("post", "docstrings-are-read-for-the-description-only(params=False),with-the-logger-given" + tag,
+               all(len(e[1]) == 1 and e[2].get("params") is False and e[2].get("logger") is d["logger"] and set(e[2]) == {"params", "logger"} for e in ev))
+
+
+def ps_setup(ctx):
+    support = ctx.choose(2, "docstring_parser_support") == 1
+    shape = ["function,no-parent", "__init__-of-a-class", "other-method-of-a-class", "__init__-with-non-class-parent"][ctx.choose(4, "component/parent")]
+    name = "__init__" if "__init__" in shape else "run"
+    component = Rec("function", attrs={"__name__": name})
+    parent = None if shape == "function,no-parent" else Rec("class" if "non-class" not in shape else "module")
+    shared = z3.String("param-shared")
+    n1, n4 = z3.String("param-of-component"), z3.String("param-of-class")
+    ctx.assume(z3.Distinct(shared, n1, n4))
+    ds = [z3.String(f"description{i}") for i in range(4)]
+    P = lambda n, t: Rec("DocstringParam", attrs={"arg_name": n, "description": t})  # noqa: E731
+    docs = {id(component): [P(n1, ds[0]), P(shared, ds[1])], id(parent): [P(shared, ds[2]), P(n4, ds[3])]}
+    fates = {}
+    logger = Rec("logger")
+
+    def parse_docstring(c, a, k):
+        c.event("parse_docstring", a, dict(k))
+        if not a or id(a[0]) not in docs or a[0] is None:
+            raise Unsupported("docstring of another object is parsed")
+        key = "component" if a[0] is component else "parent"
+        if key not in fates:
+            fates[key] = ["parsed", "unparsable"][c.choose(2, f"docstring-of-{key}")]
+        return Rec("Docstring", attrs={"params": docs[id(a[0])]}) if fates[key] == "parsed" else None
+
+    calls = {"parse_docstring": parse_docstring, "inspect.isclass": lambda c, a, k: isinstance(a[0], Rec) and a[0].cls == "class"}
+    return Setup(env={"component": component, "parent": parent, "logger": logger}, calls=calls, consts={"docstring_parser_support": support},
+                 data=dict(support=support, shape=shape, component=component, parent=parent, names=(n1, shared, n4), ds=ds, fates=fates, logger=logger, tag=_tag(support=support, shape=shape)))
+
+
+def ps_post(ctx, st, result):
+    d = st.data
+    tag = d["tag"] + "[" + ",".join(f"{k}:{v}" for k, v in d["fates"].items()) + "]"
+    ev = [e for e in ctx.events if e[0] == "parse_docstring"]
+    ctx.oblige("post", "the-result-is-a-mapping" + tag, isinstance(result, dict))
+    if not isinstance(result, dict):
+        return
+    if not d["support"]:
+        ctx.oblige("post", "without-docstring-parser:{}-and-no-docstring-is-read" + tag, result == {} and not ev)
+        return
+    n1, shared, n4 = d["names"]
+    ds = d["ds"]
+    use_parent = d["shape"] == "__init__-of-a-class"
+    srcs = [d["component"]] + ([d["parent"]] if use_parent else [])
+    ctx.oblige("post", "the-docstring-of-the-component-is-read,and-the-class's-too-exactly-when-the-component-is-its-__init__;each-once,for-parameters,with-the-logger" + tag,
+               len(ev) == len(srcs) and all(e[1][0] is s_ and len(e[1]) == 1 and e[2] == {"params": True, "logger": d["logger"]} for e, s_ in zip(ev, srcs)))
+    comp_ok = d["fates"].get("component") == "parsed"
+    par_ok = use_parent and d["fates"].get("parent") == "parsed"
+    allowed = {}
+    if comp_ok:
+        allowed[n1] = [ds[0]]
+        allowed[shared] = [ds[1]]
+    if par_ok:
+        allowed.setdefault(shared, []).append(ds[2])
+        allowed[n4] = [ds[3]]
+    got = {(k.term if hasattr(k, "term") else k): v for k, v in result.items()}
+    ok = len(got) == len(allowed) and all(any(k is n for n in allowed) for k in got) and all(any(v is x for x in allowed[next(n for n in allowed if n is k)]) for k, v in got.items() if any(k is n for n in allowed))
+    ctx.oblige("post", "every-parameter-a-parsable-source-documents-gets-a-description-that-source-gives-for-it;an-unparsable-docstring-contributes-nothing;nothing-is-invented" + tag, ok)
+    ctx.oblige("frame", "component-and-class-are-not-modified" + tag, set(d["component"].attrs) == {"__name__"} and (d["parent"] is None or d["parent"].attrs == {}))
+
+
+def so_setup(ctx):
+    have = ctx.choose(2, "docstring-parser-installed") == 1
+    style_kind = ["omitted", "None", "a-DocstringStyle", "a-string"][ctx.choose(4, "style")]
+    attr_kind = ["omitted", "None", "a-bool", "an-int", "a-string"][ctx.choose(5, "attribute_docstrings")]
+    ctx.classes.add("DocstringStyle", ["object"])
+    style = {"a-DocstringStyle": Rec("DocstringStyle"), "a-string": "google"}.get(style_kind)
+    attr = {"a-bool": z3.Bool("attribute_docstrings"), "an-int": 1, "a-string": "yes"}.get(attr_kind)
+    old_style, old_attr = Rec("DocstringStyle", attrs={"old": True}), z3.Bool("old-attribute_docstrings")
+    options = {"style": old_style, "attribute_docstrings": old_attr}
+
+    def imp(c, a, k):
+        c.event("import_docstring_parser", a)
+        if not have:
+            _fail("ImportError", "import_docstring_parser")
+        return Rec("module docstring_parser")
+
+    env = {}
+    if style_kind != "omitted":
+        env["style"] = style
+    if attr_kind != "omitted":
+        env["attribute_docstrings"] = attr
+    return Setup(env=env, calls={"import_docstring_parser": imp}, consts={"_docstring_parse_options": options, "dp.DocstringStyle": ClassRef("DocstringStyle")},
+                 data=dict(have=have, style_kind=style_kind, attr_kind=attr_kind, style=style, attr=attr, old_style=old_style, old_attr=old_attr, options=options, tag=_tag(installed=have, style=style_kind, attribute_docstrings=attr_kind)))
+
+
+def _so_state(d):
+    o = d["options"]
+    return set(o) == {"style", "attribute_docstrings"}, o.get("style"), o.get("attribute_docstrings")
+
+
+def so_post(ctx, st, result):
+    d = st.data
+    tag = d["tag"]
+    shape, style, attr = _so_state(d)
+    ctx.oblige("post", "accepted=>docstring-parser-installed,the-style-is-a-DocstringStyle-or-not-given,attribute_docstrings-a-boolean-or-not-given" + tag,
+               d["have"] and d["style_kind"] in ("omitted", "None", "a-DocstringStyle") and d["attr_kind"] in ("omitted", "None", "a-bool"))
+    ctx.oblige("post", "exactly-the-options-given-are-changed(an option not given or None keeps its value);no-option-is-added" + tag,
+               shape and style is (d["style"] if d["style_kind"] == "a-DocstringStyle" else d["old_style"]) and attr is (d["attr"] if d["attr_kind"] == "a-bool" else d["old_attr"]))
+
+
+def so_raises(ctx, st, exc):
+    d = st.data
+    tag = d["tag"]
+    shape, style, attr = _so_state(d)
+    got = f"(got {exc.cls}@{exc.origin})"
+    if not d["have"]:
+        ctx.oblige("raises", "a-missing-docstring-parser-is-reported-by-ImportError" + got + tag, exc.cls == "ImportError" and exc.origin == "import_docstring_parser")
+    else:
+        ctx.oblige("raises", "only-an-invalid-option-is-refused,with-ValueError" + got + tag, exc.cls == "ValueError" and (d["style_kind"] == "a-string" or d["attr_kind"] in ("an-int", "a-string")))
+        ctx.oblige("raises", "an-invalid-value-is-never-stored" + tag, shape and style is not d["style"] if d["style_kind"] == "a-string" else True)
+        ctx.oblige("raises", "an-invalid-attribute_docstrings-is-never-stored" + tag, attr is d["old_attr"])
+    if not d["have"]:
+        ctx.oblige("frame", "refused-before-anything-is-stored" + tag, shape and style is d["old_style"] and attr is d["old_attr"])
+
+
+def go_setup(ctx):
+    unset = ctx.choose(2, "style-unset") == 1
+    have = ctx.choose(2, "docstring-parser-installed") == 1 if unset else True
+    auto, old = Rec("DocstringStyle.AUTO"), Rec("a style set before")
+    options = {"style": None if unset else old, "attribute_docstrings": z3.Bool("attribute_docstrings")}
+    dp = Rec("module docstring_parser", attrs={"DocstringStyle": Rec("DocstringStyle class", attrs={"AUTO": auto})})
+
+    def imp(c, a, k):
+        c.event("import_docstring_parser", a)
+        if not have:
+            _fail("ImportError", "import_docstring_parser")
+        return dp
+
+    return Setup(env={}, calls={"import_docstring_parser": imp}, consts={"_docstring_parse_options": options}, data=dict(unset=unset, have=have, auto=auto, old=old, options=options, attr=options["attribute_docstrings"], tag=_tag(unset=unset, installed=have)))
+
+
+def go_post(ctx, st, result):
+    d = st.data
+    ctx.oblige("post", "the-options-table-itself-is-returned;an-unset-style-becomes-DocstringStyle.AUTO,a-set-one-stays;attribute_docstrings-stays" + d["tag"],
+               result is d["options"] and set(result) == {"style", "attribute_docstrings"} and result["style"] is (d["auto"] if d["unset"] else d["old"]) and result["attribute_docstrings"] is d["attr"])
+    ctx.oblige("post", "docstring-parser-is-needed-only-for-an-unset-style" + d["tag"], len(ctx.events) == (1 if d["unset"] else 0))
+
+
+def go_raises(ctx, st, exc):
+    d = st.data
+    ctx.oblige("raises", f"only-a-missing-docstring-parser-with-an-unset-style-fails(ImportError)(got {exc.cls}@{exc.origin})" + d["tag"], d["unset"] and not d["have"] and exc.cls == "ImportError")
+
+
+# ================================================================================================ _deprecated: the error handler
+EH_VALUES = ["False", "None", "a-function", "a-callable-object", "a-string", "a-number", "True"]
+
+
+def eh_setup(ctx):
+    kind = EH_VALUES[ctx.choose(len(EH_VALUES), "error_handler")]
+    from_init = ctx.choose(2, "set-from-__init__") == 1
+    fn = Rec("function")
+    value = {"False": False, "None": None, "a-function": fn, "a-callable-object": Rec("callable object", methods={"__call__": lambda c, s_, a, k: None}), "a-string": "usage_and_exit_error_handler", "a-number": 3, "True": True}[kind]
+    old = Rec("handler stored before")
+    self = Rec("ArgumentParser", attrs={"_error_handler": old, "other": 1})
+    frame = Rec("FrameInfo", attrs={"filename": "/site-packages/jsonargparse/_deprecated.py" if from_init else "/home/user/app.py"})
+    calls = {"inspect.stack": lambda c, a, k: [Rec("FrameInfo", attrs={"filename": "/site-packages/jsonargparse/_deprecated.py"}), frame],
+             "callable": lambda c, a, k: kind in ("a-function", "a-callable-object"),
+             "os.fspath": lambda c, a, k: "jsonargparse/_deprecated.py", "Path": lambda c, a, k: Rec("pathlib.Path"),
+             "deprecation_warning_error_handler": lambda c, a, k: c.event("deprecation-warning", a, dict(k))}
+    return Setup(env={"self": self, "error_handler": value}, calls=calls, data=dict(kind=kind, value=value, old=old, self=self, from_init=from_init, tag=_tag(value=kind, from_init=from_init)))
+
+
+def _eh_common(ctx, d):
+    w = [e for e in ctx.events if e[0] == "deprecation-warning"]
+    ctx.oblige("post", "the-deprecation-warning-is-issued-exactly-for-a-value-other-than-False(the default),once,pointing-at-the-caller" + d["tag"],
+               len(w) == (0 if d["kind"] == "False" else 1) and all(e[1] == ((5 if d["from_init"] else 2),) and e[2] == {} for e in w))
+    ctx.oblige("frame", "nothing-but-the-handler-is-written" + d["tag"], set(d["self"].attrs) == {"_error_handler", "other"} and d["self"].attrs["other"] == 1)
+
+
+def eh_post(ctx, st, result):
+    d = st.data
+    _eh_common(ctx, d)
+    ctx.oblige("post", "accepted=>a-callable,None-or-False;it-is-stored-as-given(what ArgumentParser.error calls)" + d["tag"],
+               d["kind"] in ("False", "None", "a-function", "a-callable-object") and d["self"].attrs["_error_handler"] is d["value"])
+
+
+def eh_raises(ctx, st, exc):
+    d = st.data
+    _eh_common(ctx, d)
+    # True == 1 is hashable and not in {None, False}: refused like any other non-callable
+    ctx.oblige("raises", f"anything-else-is-refused-with-ValueError(got {exc.cls}@{exc.origin})" + d["tag"], exc.cls == "ValueError" and d["kind"] in ("a-string", "a-number", "True"))
+    ctx.oblige("frame", "a-refused-value-is-not-stored:the-handler-stays" + d["tag"], d["self"].attrs["_error_handler"] is d["old"])
+
+
+def ue_setup(ctx):
+    prog, message = ["prog", "my tool.py"][ctx.choose(2, "prog")], ["boom", "100% wrong: %s"][ctx.choose(2, "message")]
+    stderr = Rec("sys.stderr", methods={"write": lambda c, s_, a, k: c.event("stderr.write", a, dict(k))})
+    exits = ctx.choose(2, "parser.exit-is-overridden-to-return") == 1
+
+    def exit_(c, s_, a, k):
+        c.event("exit", a, dict(k))
+        if not exits:
+            raise PyRaise(ExcVal("SystemExit", args=tuple(a), origin="parser.exit"))
+
+    parser = Rec("ArgumentParser", attrs={"prog": prog}, methods={"print_usage": lambda c, s_, a, k: c.event("print_usage", a, dict(k)), "exit": exit_})
+    return Setup(env={"parser": parser, "message": message}, consts={"sys.stderr": stderr}, data=dict(prog=prog, message=message, stderr=stderr, parser=parser, exits=exits, tag=_tag(exit_returns=exits, prog=prog, message=message)))
+
+
+def _ue_common(ctx, d):
+    ev = ctx.events
+    ok = [e[0] for e in ev] == ["print_usage", "stderr.write", "exit"]
+    ctx.oblige("post", "usage,then-the-error-line,then-exit:in-this-order,each-once,nothing-else" + d["tag"], ok)
+    if not ok:
+        return
+    ctx.oblige("post", "the-usage-goes-to-stderr" + d["tag"], len(ev[0][1]) == 1 and ev[0][1][0] is d["stderr"] and ev[0][2] == {})
+    text = ev[1][1][0] if len(ev[1][1]) == 1 else None
+    ctx.oblige("post", "the-error-line-is-'<prog>: error: <message>'-plus-a-newline(a % in the message is kept)" + d["tag"], text == d["prog"] + ": error: " + d["message"] + "\n")
+    ctx.oblige("post", "the-exit-status-is-2(same as argparse)" + d["tag"], ev[2][1] == (2,) and ev[2][2] == {})
+
+
+def ue_post(ctx, st, result):
+    _ue_common(ctx, st.data)
+    ctx.oblige("post", "returns-only-when-parser.exit-returns(an overridden exit)" + st.data["tag"], st.data["exits"] and result is None)
+
+
+def ue_raises(ctx, st, exc):
+    _ue_common(ctx, st.data)
+    ctx.oblige("raises", f"only-the-SystemExit-of-parser.exit(got {exc.cls}@{exc.origin})" + st.data["tag"], exc.cls == "SystemExit" and exc.origin == "parser.exit" and not st.data["exits"])
+
+
+# ================================================================================================ ActionJsonnet.__init__ / _check_ext_vars_action
+JI_EXT = ["omitted", "None", "a-string", "an-int", "a-list"]
+JI_SCHEMA = ["omitted", "None", "a-dict", "a-readable-text", "an-unreadable-text", "an-invalid-schema"]
+
+
+def ji_setup(ctx):
+    _classes(ctx)
+    ctx.classes.add("SchemaError", ["Exception"])
+    declared = ctx.choose(2, "created-by(the user: configuration / the factory: declaration)") == 1
+    self = Rec("ActionJsonnet")
+    inited, open_cms = [], []
+    if declared:
+        key, validator = z3.String("ext_vars-key"), Rec("validator")
+        kwargs = {"_ext_vars": key, "_validator": validator, "option_strings": ["--j"], "dest": "j"}
+        calls = {"super": lambda c, a, k: Rec("super()", methods={"__init__": lambda c2, s2, a2, k2: inited.append((a2, dict(k2)))}),
+                 "import_jsonnet": lambda c, a, k: c.event("import_jsonnet", a)}
+        return Setup(env={"self": self, "kwargs": kwargs}, calls=calls, data=dict(declared=True, self=self, key=key, validator=validator, inited=inited, tag=_tag(by="factory")))
+    installed = ctx.choose(2, "jsonnet-installed") == 1
+    ext = JI_EXT[ctx.choose(len(JI_EXT), "ext_vars")] if installed else "omitted"
+    sch = JI_SCHEMA[ctx.choose(len(JI_SCHEMA), "schema")] if installed and ext in ("omitted", "None", "a-string") else "omitted"
+    pyyaml = ctx.choose(2, "pyyaml_available") == 1 if sch in ("a-readable-text", "an-unreadable-text") else True
+    key = z3.String("ext_vars-key")
+    ext_v = {"None": None, "a-string": key, "an-int": z3.Int("n"), "a-list": [key]}.get(ext)
+    schema_text, loaded_schema, schema_dict = z3.String("schema-text"), {"type": "object"}, {"type": "array"}
+    schema_v = {"None": None, "a-dict": schema_dict, "an-invalid-schema": schema_dict, "a-readable-text": schema_text, "an-unreadable-text": schema_text}.get(sch)
+    validator, jv = Rec("validator"), Rec("Draft7Validator")
+    announced = "YAMLError" if pyyaml else "ValueError"
+
+    def imp(c, a, k):
+        c.event("import_jsonnet", a)
+        if not installed:
+            _fail("ImportError", "import_jsonnet")
+        return Rec("module _jsonnet")
+
+    def load_value(c, a, k):
+        c.event("load_value", a, dict(k), [dict(x) for x in open_cms])
+        if sch == "an-unreadable-text":
+            _fail(announced, "load_value")
+        return loaded_schema
+
+    def check_schema(c, a, k):
+        c.event("check_schema", a, dict(k))
+        if sch == "an-invalid-schema":
+            _fail("SchemaError", "check_schema")
+
+    extended = Rec("extended validator class", methods={"__call__": lambda c, s_, a, k: (c.event("build-validator", a, dict(k)), validator)[1]})
+    calls = {"import_jsonnet": imp, "import_jsonschema": lambda c, a, k: (c.event("import_jsonschema", a), (Rec("module jsonschema"), jv))[1], "load_value": load_value,
+             "get_loader_exceptions": lambda c, a, k: (c.event("get_loader_exceptions", a), (ClassRef(announced),))[1], "jsonvalidator.check_schema": check_schema,
+             "ActionJsonSchema._extend_jsonvalidator_with_default": lambda c, a, k: (c.event("extend", a, dict(k)), extended)[1],
+             "super": lambda c, a, k: Rec("super()", methods={"__init__": lambda c2, s2, a2, k2: inited.append((a2, dict(k2)))})}
+    cms = {"parser_context": (lambda c, a, k: open_cms.append(dict(k)), lambda c, t, e: (open_cms.pop(), False)[1])}
+    env = {"self": self, "kwargs": {}}
+    if ext != "omitted":
+        env["ext_vars"] = ext_v
+    if sch != "omitted":
+        env["schema"] = schema_v
+    return Setup(env=env, calls=calls, cms=cms, consts={"pyyaml_available": pyyaml, "NoneType": ClassRef("NoneType")},
+                 data=dict(declared=False, self=self, installed=installed, ext=ext, sch=sch, pyyaml=pyyaml, ext_v=ext_v, schema_v=schema_v, schema_text=schema_text, loaded_schema=loaded_schema, schema_dict=schema_dict,
+                           validator=validator, jv=jv, announced=announced, inited=inited, tag=_tag(by="user", installed=installed, ext_vars=ext, schema=sch, pyyaml=pyyaml)))
+
+
+def ji_post(ctx, st, result):
+    d = st.data
+    tag = d["tag"]
+    a = d["self"].attrs
+    if d["declared"]:
+        ctx.oblige("post", "a-declaration-keeps-the-configured-ext_vars-key-and-validator;nothing-is-imported-or-checked-again" + tag, set(a) == {"_ext_vars", "_validator"} and a["_ext_vars"] is d["key"] and a["_validator"] is d["validator"] and not ctx.events)
+        ctx.oblige("post", "argparse's-initialiser-runs-once-with-the-declaration-keywords-only(the private keywords are kept off argparse)" + tag,
+                   len(d["inited"]) == 1 and d["inited"][0][0] == () and d["inited"][0][1] == {"option_strings": ["--j"], "dest": "j"})
+        return
+    E = lambda n: [e for e in ctx.events if e[0] == n]  # noqa: E731
+    ctx.oblige("post", "accepted=>jsonnet-installed,ext_vars-None-or-a-string,schema-readable-and-valid" + tag, d["installed"] and d["ext"] in ("omitted", "None", "a-string") and d["sch"] not in ("an-unreadable-text", "an-invalid-schema"))
+    ctx.oblige("post", "the-jsonnet-package-is-looked-for-first,naming-ActionJsonnet" + tag, bool(ctx.events) and ctx.events[0] == ("import_jsonnet", ("ActionJsonnet",)))
+    ctx.oblige("post", "the-ext_vars-key-is-kept-as-given(None when omitted)" + tag, "_ext_vars" in a and a["_ext_vars"] is d["ext_v"])
+    ctx.oblige("post", "a-configuration-does-not-run-argparse's-initialiser(the factory call does)" + tag, not d["inited"])
+    if d["sch"] in ("omitted", "None"):
+        ctx.oblige("post", "without-a-schema-there-is-no-validator-and-jsonschema-is-not-needed" + tag, a.get("_validator", "missing") is None and not E("import_jsonschema") and not E("check_schema"))
+        return
+    the_schema = d["loaded_schema"] if d["sch"] == "a-readable-text" else d["schema_dict"]
+    cs, bv, ex, lv = E("check_schema"), E("build-validator"), E("extend"), E("load_value")
+    ctx.oblige("post", "a-schema-text-is-read-once-as-YAML(JSON without PyYAML);a-mapping-is-taken-as-given" + tag,
+               (len(lv) == 1 and lv[0][1] == (d["schema_text"],) and lv[0][3] == [{"load_value_mode": "yaml" if d["pyyaml"] else "json"}]) if d["sch"] == "a-readable-text" else not lv)
+    ctx.oblige("post", "the-schema-is-checked-before-the-validator-is-built-from-exactly-it(Draft7, extended with defaults);that-validator-is-kept" + tag,
+               len(cs) == 1 and cs[0][1] == (the_schema,) and cs[0][1][0] is the_schema and len(ex) == 1 and ex[0][1] == (d["jv"],) and len(bv) == 1 and len(bv[0][1]) == 1 and bv[0][1][0] is the_schema
+               and a.get("_validator") is d["validator"] and ctx.events.index(cs[0]) < ctx.events.index(bv[0]))
+    ctx.oblige("post", "jsonschema-is-looked-for-naming-ActionJsonnet" + tag, E("import_jsonschema") == [("import_jsonschema", ("ActionJsonnet",))])
+
+
+def ji_raises(ctx, st, exc):
+    d = st.data
+    tag = d["tag"]
+    got = f"(got {exc.cls}@{exc.origin})"
+    if d["declared"]:
+        ctx.oblige("raises", "a-declaration-by-the-factory-does-not-fail" + got + tag, False)
+        return
+    if not d["installed"]:
+        ctx.oblige("raises", "a-missing-jsonnet-package-is-reported-by-the-ImportError-of-import_jsonnet" + got + tag, exc.cls == "ImportError" and exc.origin == "import_jsonnet")
+    elif d["ext"] in ("an-int", "a-list"):
+        ctx.oblige("raises", "an-ext_vars-that-is-neither-None-nor-a-string-is-refused-with-ValueError" + got + tag, exc.cls == "ValueError" and exc.origin.startswith("raise@"))
+    elif d["sch"] == "an-unreadable-text":
+        ctx.oblige("raises", "a-schema-text-that-cannot-be-read-is-refused-with-ValueError(cause kept)" + got + tag, exc.cls == "ValueError" and exc.origin.startswith("raise@") and isinstance(exc.cause, ExcVal) and exc.cause.origin == "load_value")
+    else:
+        ctx.oblige("raises", "otherwise-only-an-invalid-schema-fails,with-jsonschema's-SchemaError(documented)" + got + tag, d["sch"] == "an-invalid-schema" and exc.cls == "SchemaError")
+    ctx.oblige("frame", "a-refused-configuration-has-no-validator-and-did-not-reach-argparse" + tag, "_validator" not in d["self"].attrs and not d["inited"])
+
+
+DICT, TDICT = ClassRef("dict"), ClassRef("Dict")
+CE_ACTION = ["jsonnet-with-key", "jsonnet-key-None", "jsonnet-key-empty", "other-action"]
+CE_FOUND = ["none", "typehint-dict", "typehint-Dict", "typehint-other", "not-a-typehint-action"]
+CE_DEFAULT = ["None", "a-dict", "a-string"]
+
+
+def ce_setup(ctx):
+    kind = CE_ACTION[ctx.choose(len(CE_ACTION), "action")]
+    found = CE_FOUND[ctx.choose(len(CE_FOUND), "argument-found-for-the-key")] if kind == "jsonnet-with-key" else "none"
+    dflt = CE_DEFAULT[ctx.choose(len(CE_DEFAULT), "its-default")] if found in ("typehint-dict", "typehint-Dict") else "None"
+    key = z3.String("ext_vars-key")
+    ctx.assume(z3.Length(key) > 0)
+    action = Rec("ActionJsonnet", attrs={"_ext_vars": {"jsonnet-with-key": key, "jsonnet-key-None": None, "jsonnet-key-empty": ""}[kind], "dest": "j"}) if kind != "other-action" else Rec("ActionTypeHint", attrs={"dest": "x"})
+    the_dict = {"a": z3.Int("a")}
+    default = {"None": None, "a-dict": the_dict, "a-string": "x"}[dflt]
+    target = None
+    if found.startswith("typehint"):
+        target = Rec("ActionTypeHint", attrs={"_typehint": {"typehint-dict": DICT, "typehint-Dict": TDICT, "typehint-other": ClassRef("int")}[found], "default": default, "dest": "ev"})
+    elif found == "not-a-typehint-action":
+        target = Rec("_StoreAction", attrs={"default": None, "dest": "ev"})
+        ctx.classes.add("_StoreAction", ["Action"])
+    parser = Rec("ArgumentParser", attrs={"t": 1})
+    calls = {"_find_action": lambda c, a, k: (c.event("_find_action", a, dict(k)), target)[1]}
+    return Setup(env={"parser": parser, "action": action}, calls=calls, consts={"Dict": TDICT},
+                 data=dict(kind=kind, found=found, dflt=dflt, key=key, action=action, action_before=dict(action.attrs), target=target, target_before=None if target is None else dict(target.attrs), the_dict=the_dict, parser=parser,
+                           tag=_tag(action=kind, found=found, default=dflt)))
+
+
+def _ce_lookup(ctx, d):
+    ev = [e for e in ctx.events if e[0] == "_find_action"]
+    if d["kind"] == "jsonnet-with-key":
+        ctx.oblige("post", "the-argument-is-looked-up-once,in-the-parser-given,under-exactly-the-ext_vars-key" + d["tag"], len(ev) == 1 and len(ev[0][1]) == 2 and ev[0][1][0] is d["parser"] and ev[0][1][1] is d["key"] and ev[0][2] == {})
+    else:
+        ctx.oblige("post", "another-action-or-a-jsonnet-action-without-ext_vars-key:nothing-is-looked-up" + d["tag"], not ev)
+    ctx.oblige("frame", "parser-and-jsonnet-action-are-not-modified" + d["tag"], d["parser"].attrs == {"t": 1} and d["action"].attrs == d["action_before"])
+
+
+def ce_post(ctx, st, result):
+    d = st.data
+    tag = d["tag"]
+    _ce_lookup(ctx, d)
+    t = d["target"]
+    if d["kind"] != "jsonnet-with-key":
+        ctx.oblige("post", "nothing-happens" + tag, result is None and not ctx.mutlog)
+        return
+    ctx.oblige("post", "accepted=>a-dict-typed-argument-of-that-name-exists-and-its-default-is-a-dict-or-None" + tag, d["found"] in ("typehint-dict", "typehint-Dict") and d["dflt"] in ("None", "a-dict"))
+    if t is None:
+        return
+    want_default_ok = (t.attrs.get("default") is d["the_dict"]) if d["dflt"] == "a-dict" else (isinstance(t.attrs.get("default"), dict) and t.attrs["default"] == {})
+    ctx.oblige("post", "a-None-default-becomes-{}(so the jsonnet sees no external variable),a-dict-default-stays-the-same-object;the-argument-is-marked-as-jsonnet_ext_vars" + tag,
+               want_default_ok and t.attrs.get("jsonnet_ext_vars") is True)
+    ctx.oblige("frame", "nothing-else-of-the-argument-is-written" + tag, {k: v for k, v in t.attrs.items() if k not in ("default", "jsonnet_ext_vars")} == {k: v for k, v in d["target_before"].items() if k != "default"})
+
+
+def ce_raises(ctx, st, exc):
+    d = st.data
+    tag = d["tag"]
+    _ce_lookup(ctx, d)
+    ctx.oblige("raises", f"refused-with-ValueError-exactly-when-no-dict-typed-argument-of-that-name-exists-or-its-default-is-neither-a-dict-nor-None(got {exc.cls}@{exc.origin})" + tag,
+               exc.cls == "ValueError" and d["kind"] == "jsonnet-with-key" and (d["found"] not in ("typehint-dict", "typehint-Dict") or d["dflt"] == "a-string"))
+    if d["target"] is not None:
+        ctx.oblige("frame", "a-refused-argument-is-not-marked-and-keeps-its-default" + tag, d["target"].attrs == d["target_before"])
+
+
 # ================================================================================================ the units
 def units(prop):
     return [
@@ -649,7 +1429,7 @@ def units(prop):
                       "a jsonschema validator's validate returns or raises ValidationError; item assignment on a non-mapping raises TypeError",
                       "split_ext_vars by its contract (unit above); parser_context sets load_value_mode for its body (C08/C09 unit)"]),
         Unit(prop, J + "ActionJsonnet._check_type", ct_setup, ct_post, ct_raises, max_paths=20000, expect_cover=("return", "raise:TypeError"),
-             trusted=["ActionJsonnet.parse fails with TypeError / ValueError / YAMLError / ValidationError / RuntimeError - or the ArgumentError its body raises today (unit above)",
+             trusted=["ActionJsonnet.parse fails with TypeError / ValueError / YAMLError / ValidationError / RuntimeError (unit above)",
                       "get_loader_exceptions() announces the classes of the mode in progress (r2_loaders unit); get_jsonschema_exceptions() imports jsonschema: ImportError without the package",
                       "_is_action_value_list by its unit (any_units); Namespace.get(key, default) returns the entry or the default; an empty namespace is falsy"]),
         Unit(prop, J + "ActionJsonnet.__call__", jc_setup, jc_post, jc_raises, expect_cover=("return", "raise:TypeError"),
@@ -659,11 +1439,43 @@ def units(prop):
              trusted=["import_requests / import_fsspec return the module or raise ImportError (own units)", "`global` makes the assignment in update_mode a module-level one (modelled by the unit's statement hooks)",
                       "the mode before the call is one of the five reachable from 'fr' through this function: fr, fur, fsr, fsur, fusr"]),
         Unit(prop, O + "get_config_read_mode", gm_setup, gm_post, _never, trusted=["module-level variable read"]),
+        Unit(prop, O + "missing_package_raise", mp_setup, mp_post, mp_raises, expect_cover=("return", "raise:ImportError", "raise:ValueError", "raise:<Any>"),
+             trusted=["@contextmanager: the with-body runs at the yield and its exception is thrown in there", "ModuleNotFoundError is a subclass of ImportError"]),
+    ] + [
+        Unit(prop, O + fname, *_imp_setup(fname), expect_cover=("return", "raise:ImportError"),
+             trusted=["an import statement binds the module or raises ModuleNotFoundError (ImportError)", "missing_package_raise by its contract (unit above)", "importlib.util.find_spec returns None for a module that is not there"])
+        for fname in IMPORTERS
+    ] + [
+        Unit(prop, O + "get_omegaconf_loader.<locals>.omegaconf_load", oc_setup, oc_post, oc_raises, expect_cover=("return", "raise:YAMLError"),
+             trusted=["yaml_load by its contract (r2_loaders): a value or YAMLError", "OmegaConf.load / OmegaConf.to_object resolve the document or raise an OmegaConf error (not a YAMLError: the text was read by PyYAML before)",
+                      "for a document without interpolations OmegaConf's container equals YAML's (external; bounded harness b05)"]),
+        Unit(prop, O + "get_omegaconf_loader", ol_setup, ol_post, ol_raises, expect_cover=("return", "raise:ImportError"), trusted=["import statements as above; missing_package_raise by its contract"]),
+        Unit(prop, O + "parse_docstring", pd_setup, pd_post, pd_raises, expect_cover=("return", "raise:ImportError"),
+             trusted=["docstring_parser.parse / parse_from_object return a Docstring or raise ParseError / ValueError (external)", "import_docstring_parser / get_docstring_parse_options by their units", "logger.debug only logs"]),
+        Unit(prop, O + "get_doc_short_description", sd_setup, sd_post, _never,
+             trusted=["parse_docstring by its contract: a Docstring or None", "inspect.isclass", "a class has __init__; a method name given by the callers names a method of the class (it comes from introspection)"]),
+        Unit(prop, O + "parse_docs", ps_setup, ps_post, _never,
+             trusted=["parse_docstring by its contract: a Docstring (params: name + description) or None", "inspect.isclass", "with a class as parent the component is a function (has __name__): callers pass methods of the class"]),
+        Unit(prop, O + "set_docstring_parse_options", so_setup, so_post, so_raises, expect_cover=("return", "raise:ValueError", "raise:ImportError"), trusted=["import_docstring_parser by its unit; isinstance"]),
+        Unit(prop, O + "get_docstring_parse_options", go_setup, go_post, go_raises, expect_cover=("return", "raise:ImportError"), trusted=["import_docstring_parser by its unit"]),
+        Unit(prop, D + "ParserDeprecations.error_handler", eh_setup, eh_post, eh_raises, label="setter", expect_cover=("return", "raise:ValueError"),
+             trusted=["of the two definitions named error_handler the last one (the setter) is the unit", "inspect.stack()[1] is the caller's frame; callable(); deprecation_warning_error_handler only warns"]),
+        Unit(prop, D + "usage_and_exit_error_handler", ue_setup, ue_post, ue_raises, expect_cover=("return", "raise:SystemExit"),
+             trusted=["parser.print_usage(file) writes the usage to the file; parser.exit(status) raises SystemExit(status) unless overridden; the @deprecated wrapper only warns", "prog and message: concrete sample strings (str % dict is evaluated by CPython)"]),
+        Unit(prop, J + "ActionJsonnet.__init__", ji_setup, ji_post, ji_raises, expect_cover=("return", "raise:ValueError", "raise:ImportError", "raise:SchemaError"),
+             trusted=["import_jsonnet / import_jsonschema by their units; load_value returns the value or raises the class get_loader_exceptions(mode) announces; Draft7Validator.check_schema raises SchemaError for an invalid schema",
+                      "argparse.Action.__init__ (super()) stores the keywords"]),
+        Unit(prop, J + "ActionJsonnet._check_ext_vars_action", ce_setup, ce_post, ce_raises, expect_cover=("return", "raise:ValueError"),
+             trusted=["_find_action by its unit (r2_actions): the action of exactly that key or None", "dict / typing.Dict are the two accepted spellings of the type"]),
     ]
 
 
+_IMPORT_UNITS = [":" + f for f in IMPORTERS]
 CARRIES = {
-    "C05": [":ActionJsonnet.split_ext_vars", ":ActionJsonnet.parse", ":ActionJsonnet._check_type"],
-    "C03": [":ActionJsonnet.parse", ":ActionJsonnet._check_type", ":ActionJsonnet.__call__"],
-    "C04": [":set_config_read_mode", ":get_config_read_mode", ":ActionJsonnet.parse"],
+    "C05": [":ActionJsonnet.split_ext_vars", ":ActionJsonnet.parse", "omegaconf_load", ":get_omegaconf_loader", ":missing_package_raise", ":import_jsonnet", ":import_toml_loads", ":import_toml_dumps"],
+    "C03": [":ActionJsonnet.parse", ":ActionJsonnet._check_type", ":ActionJsonnet.__call__", ":ActionJsonnet.__init__", ":ActionJsonnet._check_ext_vars_action", "omegaconf_load", ":missing_package_raise",
+            ":ParserDeprecations.error_handler[setter]", ":usage_and_exit_error_handler"] + _IMPORT_UNITS,
+    "C04": [":set_config_read_mode", ":get_config_read_mode", ":ActionJsonnet.parse", ":import_requests", ":import_fsspec"],
+    "C09": [":ActionJsonnet.__call__"],
+    "C12": [":parse_docstring", ":get_doc_short_description", ":parse_docs", ":set_docstring_parse_options", ":get_docstring_parse_options", ":import_docstring_parser"],
 }
